@@ -923,6 +923,20 @@ def gen_acts(rng, depth, live, top):
 
 
 def cases(ctx):
+    """all cases of a run; the op-code histogram of the sequences goes into the evidence"""
+    for kind, case in _cases(ctx):
+        if case[0] in (1, 2):
+            pre = "setop:" if case[0] == 1 else "rdsop:"
+            for op in case[2]:
+                code = op[0]
+                if code in (8, 9, 10) and case[0] == 1 or code in (12, 13, 14) and case[0] == 2:
+                    ctx.count(f"{pre}{code}.{op[1]}")
+                else:
+                    ctx.count(f"{pre}{code}")
+        yield kind, case
+
+
+def _cases(ctx):
     rng = ctx.rng
     # ---- exhaustive small scopes
     if ctx.quick:
@@ -1652,6 +1666,10 @@ def _check_constructor_aliasing(label, rd, F, count, notes):
 
 
 def _check_instance(label, rd, F, count, anomalies):
+    other = object()
+    count[0] += 1
+    if rd == other or not (rd != other) or not (rd == rd) or rd != rd or hash(rd) != hash(rd):
+        F.append({"kind": "value:eq", "what": f"{label}: == / != against itself or a non-record is wrong", "cls": label})
     _check_constructor_aliasing(label, rd, F, count, anomalies)
     _probe_object(rd, label, F, count)
     bad = []
